@@ -33,7 +33,9 @@ RULE = ('every implementation run is judged twice - by the Coq model (correspond
         'exception propagated; distinct = distinct case descriptions')
 
 SESS_STREAM = {'allowed': [1, 3, 5, 7], 'retryable': [2, 3, 8]}
-FLAGS = [{}, {'immediate': True}, {'strict': True}, {'serializable': True}, {'optimistic': False}, {'immediate': True, 'strict': True}]
+FLAGS = [{}, {'immediate': True}, {'strict': True}, {'serializable': True}, {'optimistic': False}, {'immediate': True, 'strict': True},
+         {'sql_debug': False, 'show_values': False}]
+FLAGS_NO_RETRY = FLAGS + [{'ddl': True}, {'ddl': True, 'strict': True}]      # ddl cannot be combined with retry
 REPS = ['ll', 'cc', 'lc', 'cl']
 OUTS = [-1, 0, 1, 2, 3, 4, 5, 6, 7, 8]     # 6, 7, 8: BaseException-only kinds (plain / allowed / retryable)
 BASE_ONLY = (6, 7, 8)
@@ -63,15 +65,16 @@ def stream_cases(ctx, deep=False):
             reps = REPS if r <= 1 or ctx.thorough else [REPS[k % 4]]
             for rep in reps:
                 k += 1
-                yield {'kind': 'stream', 'sess': dict(SESS_STREAM, retry=r, rep=rep, flags=FLAGS[k % len(FLAGS)]),
+                fl = FLAGS_NO_RETRY if r == 0 else FLAGS
+                yield {'kind': 'stream', 'sess': dict(SESS_STREAM, retry=r, rep=rep, flags=fl[k % len(fl)]),
                        'stream': [[0, o] for o in outs], 'cfail': 0}
     # poisoned writes: the flush inside commit() raises kind cfail
     pr = 2 if not ctx.thorough else 3
     for r in range(0, pr + 1):
-        alphabet = [(p, o) for p in (0, 1) for o in (OUTS if r <= 1 else ([-1, 0, 1, 2, 3, 6] if r == 2 else [-1, 0, 1, 2, 3]))]
+        alphabet = [(p, o) for p in (0, 1) for o in (OUTS if r <= 1 else (([-1, 0, 2, 3, 6] if not ctx.thorough else [-1, 0, 1, 2, 3, 6]) if r == 2 else [-1, 0, 1, 2, 3]))]
         for outs in itertools.product(alphabet, repeat=r + 1):
             if not any(p for p, o in outs): continue
-            for cf in ([0, 1, 2, 3] if r <= 1 else [0, 2]):
+            for cf in (([0, 1, 2, 3] if ctx.thorough else [0, 2, 3]) if r <= 1 else [0, 2]):
                 k += 1
                 yield {'kind': 'stream', 'sess': dict(SESS_STREAM, retry=r, rep=REPS[k % 4], flags=FLAGS[k % len(FLAGS)]),
                        'stream': [list(x) for x in outs], 'cfail': cf}
@@ -172,7 +175,7 @@ def gen_cases(ctx, deep=False):
                     steps = [[ops, 'yield'] for ops in prefix] + [[last_ops, end]]
                     k += 1
                     # between two resumptions the same thread runs another read-only db_session (every case with more than one resumption)
-                    yield {'kind': 'gen', 'sess': sess, 'steps': number(steps), 'cfail': 3, 'interleave': ln > 1}
+                    yield {'kind': 'gen', 'sess': sess, 'steps': number(steps), 'cfail': 3, 'interleave': ln > 1, 'coro': k % 2 == 0}
 
 
 def web_cases(ctx):
@@ -183,8 +186,20 @@ def web_cases(ctx):
             yield {'kind': 'bottle', 'view': [p, o], 'cfail': 0}
 
 
+def fault_cases(ctx):
+    """faults of the machinery: predicates (callables) that raise, core.rollback() that raises; one attempt (retry = 0)"""
+    B = ['yes', 'no', ['raise', 0]]
+    for p in (0, 1):
+        for o in (-1, 1, 6):
+            for rb in (False, True):
+                for a in B:
+                    yield {'kind': 'fault', 'form': 'with', 'allowed': a, 'retryable': 'no', 'rb_fail': rb, 'leaf': [p, o], 'cfail': 2}
+                    for r in ('yes', 'no', ['raise', 3]):
+                        yield {'kind': 'fault', 'form': 'decor', 'allowed': a, 'retryable': r, 'rb_fail': rb, 'leaf': [p, o], 'cfail': 2}
+
+
 def all_cases(ctx, deep=False):
-    cases = list(web_cases(ctx)) + list(stream_cases(ctx, deep)) + list(prog_cases(ctx, deep)) + list(gen_cases(ctx, deep))
+    cases = list(web_cases(ctx)) + list(fault_cases(ctx)) + list(stream_cases(ctx, deep)) + list(prog_cases(ctx, deep)) + list(gen_cases(ctx, deep))
     return cases
 
 
@@ -259,6 +274,12 @@ def coq_case(case, ob):
         return 'obs_eqb (run_prog %d %s) %s' % (cf, c_prog(case['prog']), c_obs(ob))
     if k == 'gen':
         return 'gobs_eqb (run_gen %d %s) (%s, %s)' % (cf, c_list(map(c_gstep, case['steps'])), c_obs(ob), c_bool(ob.get('finished')))
+    if k == 'fault':
+        pr = lambda b: {'yes': 'PYes', 'no': 'PNo'}.get(b) if isinstance(b, str) else '(PRaises %d)' % b[1]
+        p, o = case['leaf']
+        if case['form'] == 'decor':
+            return 'obs_eqb (run_fault_decor %d %s %s %s %s %s) %s' % (cf, pr(case['allowed']), pr(case['retryable']), c_bool(not case['rb_fail']), c_bool(p), c_out(o), c_obs(ob))
+        return 'obs_eqb (run_fault_with %d %s %s %s %s) %s' % (cf, pr(case['allowed']), c_bool(not case['rb_fail']), c_bool(p), c_out(o), c_obs(ob))
     if k == 'flask':
         p, o = case['view']
         return 'obs_eqb (run_flask %d flask_passes_exc_type %s %s) %s' % (cf, c_bool(p), c_out(o), c_obs(ob))
@@ -269,7 +290,7 @@ def coq_case(case, ob):
     raise ValueError(k)
 
 HEADER = ('From Coq Require Import List Bool Arith.\nImport ListNotations.\n'
-          'Require Import PonyV.Model.C18Session PonyV.Model.C18Obs PonyV.Gen.C18Web.\n')
+          'Require Import PonyV.Model.C18Session PonyV.Model.C18Faults PonyV.Model.C18Obs PonyV.Gen.C18Web.\n')
 
 
 def run_bools(ctx, exprs, chunk=700):
@@ -324,7 +345,7 @@ def correspondence(ctx):
     for i in bad[:20]:
         case, ob = meta[i]
         disagreements.append({'what': 'model and implementation differ (%s)' % case['kind'], 'input': case, 'impl': ob, 'coq_case': exprs[i][:1500]})
-    for kind in ('stream', 'prog', 'gen', 'flask', 'bottle'):
+    for kind in ('stream', 'prog', 'gen', 'fault', 'flask', 'bottle'):
         for (case, ob), e in zip(meta, exprs):
             if case['kind'] == kind and nontrivial_case(case, ob):
                 samples.append({'case': case, 'observed': ob, 'coq_case': e}); break
@@ -386,6 +407,15 @@ def oracle(case, ob):
             want_exc = cf       # the commit that the allowed exception triggers fails: its exception replaces the allowed one
         if ob['exc'] != want_exc:
             out.append(('decorator:wrong-exception-propagated', 'expected %s to propagate, got %s' % (want_exc, ob['exc'])))
+    elif k == 'fault':
+        p, o = case['leaf']
+        ok_to_commit = (not p) and (o < 0 or case['allowed'] == 'yes')
+        if ob['rows'] and not ok_to_commit:
+            out.append(('faults:committed-although-body-failed-and-predicate-did-not-accept', 'rows %r committed; body %s, allowed-predicate %s' % (ob['rows'], o, case['allowed'])))
+        if o < 0 and not p and (ob['rows'] != [0] or ob['exc'] != -1):
+            out.append(('faults:successful-body-not-committed', 'rows %r exc %s' % (ob['rows'], ob['exc'])))
+        if (o >= 0 or p) and ob['exc'] == -1:
+            out.append(('faults:failure-turned-into-normal-return', 'body %s poisoned %s but the call returned normally' % (o, p)))
     elif k in ('flask', 'bottle'):
         p, o = case['view']
         if k == 'flask': allowed = lambda e: False
